@@ -102,6 +102,7 @@ struct OpCtx {
   // bookkeeping for oracles
   long mremap_moves = 0;
   long mremap_calls = 0;
+  long soft_faults = 0;  // legal-but-unusual answers that are not refusals (transient short writes)
   std::string sim_error;  // simulated kernel rejected a call as invalid (e.g. munmap with wrong length)
   void reset_op(const std::vector<EnvAns> *e, uint64_t uid);
 };
@@ -188,6 +189,7 @@ struct SimStats {
   long sim_errors = 0;
   long stderr_bytes = 0;
   long short_reads = 0;
+  long transient_short_writes = 0;
 };
 SimStats &stats();
 // resources still held by real code at this moment (for leak counting at end of run)
